@@ -127,6 +127,11 @@ type Options struct {
 	ProbeEnded  bool // also probe through ended transactions (must fail with ErrTxNotFound)
 	ProbeReader bool // probes alternate between Get and GetReader
 	AfterStep   func(r *Runner, idx int, s Step) *Mismatch
+	// ProbeMode varies who probes in which order (reads may have side effects on the
+	// implementation that a fixed probing order would hide): 0 oldest first, 1 youngest
+	// first, 2 shuffled each time, 3 shuffled random subset, some rounds skipped entirely.
+	ProbeMode int
+	ProbeSeed int64
 }
 
 // Stats collected while running.
@@ -149,6 +154,7 @@ type Runner struct {
 	Stats     Stats
 	probeFlip bool
 	phRng     *rand.Rand
+	prRng     *rand.Rand
 	malformed map[int]bool
 	prevRead  []byte
 	prevCopy  []byte
@@ -554,6 +560,23 @@ func (r *Runner) ProbeAll(idx int, s Step) *Mismatch {
 			}
 		}
 		sort.Ints(actors)
+	}
+	if r.Opt.ProbeMode != 0 {
+		if r.prRng == nil {
+			r.prRng = rand.New(rand.NewSource(r.Opt.ProbeSeed*1000003 + int64(r.Opt.ProbeMode)))
+		}
+		switch r.Opt.ProbeMode {
+		case 1:
+			sort.Sort(sort.Reverse(sort.IntSlice(actors)))
+		default:
+			r.prRng.Shuffle(len(actors), func(i, j int) { actors[i], actors[j] = actors[j], actors[i] })
+			if r.Opt.ProbeMode == 3 {
+				if r.prRng.Intn(2) == 0 {
+					return nil
+				}
+				actors = actors[:1+r.prRng.Intn(len(actors))]
+			}
+		}
 	}
 	keys := r.M.Keys()
 	for _, k := range keys {
